@@ -527,6 +527,69 @@ func runExp(out *vlib.Out, r *vlib.Rand, bs []float64) {
 	}
 }
 
+// runExpRanges: a metric whose Buckets are given to the store API in any order
+// (descending, shuffled, +Inf in the middle or left to MakeBuckets), observed
+// and scraped.  The exported buckets must be the datum's buckets accumulated
+// in increasing order of the upper bound.
+type exprCase struct {
+	Kind   string      `json:"kind"`
+	Ranges [][2]string `json:"ranges"`
+	Obs    []string    `json:"obs"`
+	Le     [][2]string `json:"le"`
+	Count  uint64      `json:"count"`
+	Sum    string      `json:"sum"`
+}
+
+func runExpRanges(out *vlib.Out, rs []datum.Range, vs []float64) {
+	m := metrics.NewMetric("h", "p", metrics.Histogram, metrics.Buckets)
+	m.Buckets = rs
+	d, err := m.GetDatum()
+	if err != nil {
+		panic(err)
+	}
+	for k, v := range vs {
+		datum.Observe(d, v, time.Unix(int64(3000+k), 0))
+	}
+	store := metrics.NewStore()
+	if err := store.Add(m); err != nil {
+		panic(err)
+	}
+	c := exprCase{Kind: "expr", Ranges: rangesHex(rs), Obs: hexList(vs)}
+	got, err := scrape(store)
+	s, found := got[""]
+	if err != nil || !found {
+		out.Violate("scrape-failed", fmt.Sprint(err), c)
+		return
+	}
+	// expected, from the store content: the datum's buckets by increasing bound
+	bcs, cnt, sum := snapshot(d)
+	sorted := append([]datum.BucketCount(nil), bcs...)
+	sort.SliceStable(sorted, func(i, j int) bool { return sorted[i].Range.Max < sorted[j].Range.Max })
+	ok := len(sorted) == len(s.le)
+	var cum uint64
+	for i := 0; ok && i < len(sorted); i++ {
+		cum += sorted[i].Count
+		ok = s.le[i][0] == f2b(sorted[i].Range.Max) && s.le[i][1] == cum
+	}
+	if !ok {
+		out.Violate("exported-buckets-not-cumulative-by-bound", fmt.Sprintf("datum buckets %v exported as %v", bcs, s.le), c)
+	}
+	if n := len(s.le); n == 0 || s.le[n-1][1] != s.count || s.count != cnt || f2b(s.sum) != f2b(sum) {
+		out.Violate("exported-inf-bucket-differs-from-count", fmt.Sprintf("exported %v count %d sum %016x; datum count %d sum %016x", s.le, s.count, f2b(s.sum), cnt, f2b(sum)), c)
+	}
+	le := make([]string, len(s.le))
+	for i, p := range s.le {
+		le[i] = fmt.Sprintf("(%s, %s)", vlib.N(p[0]), vlib.N(p[1]))
+		c.Le = append(c.Le, [2]string{fmt.Sprintf("%016x", p[0]), strconv.FormatUint(p[1], 10)})
+	}
+	c.Count, c.Sum = s.count, fmt.Sprintf("%016x", f2b(s.sum))
+	id := out.NextID()
+	out.Add(vlib.App("CExpR", vlib.N(id), pairList(rs), bitsList(vs),
+		fmt.Sprintf("(%s, %s, %s)", vlib.List(le), vlib.N(s.count), vlib.N(f2b(s.sum)))), c, len(vs) >= 2)
+	asc := sort.SliceIsSorted(rs, func(i, j int) bool { return rs[i].Max < rs[j].Max })
+	out.Count(fmt.Sprintf("expr/ascending=%v", asc))
+}
+
 func main() {
 	a := vlib.ParseArgs()
 	out := vlib.NewOut(a, "From V Require Import Corr.Run_C21.", "c21case", 1000)
@@ -598,7 +661,49 @@ func main() {
 		}
 		runExp(out, r, clean)
 	}
-	out.Flush("decl: boundary lists of length 0-6 (negative, zero, -0, denormal, adjacent floats, unsorted, NaN/Inf) through the real code generator, non-trivial when accepted; obs: sequences of 1-14 observations at/just below/just above every bound plus negatives, infinities and NaN on a real Buckets datum, non-trivial when >= 2 observations include a value equal to a bound or a non-finite value; exp: program text compiled, observed and scraped through a prometheus registry, non-trivial when >= 2 observations", false)
+	// ranges handed to the store API in any order, through the exposition
+	nExpR := 150
+	if a.Thorough() {
+		nExpR = 2500
+	}
+	runExpRanges(out, []datum.Range{{Min: 2, Max: 4}, {Min: 1, Max: 2}, {Min: 0, Max: 1}}, []float64{0.5, 0.5, 0.5, 3})
+	for i := 0; i < nExpR; i++ {
+		var bs []float64
+		for {
+			bs = genBounds(r, false)
+			ok := len(bs) >= 2
+			for j := 0; ok && j < len(bs); j++ {
+				ok = bs[j] == bs[j] && !math.IsInf(bs[j], 0) && (j == 0 || bs[j-1] < bs[j])
+			}
+			if ok {
+				break
+			}
+		}
+		var rs []datum.Range
+		for j := 0; j+1 < len(bs); j++ {
+			rs = append(rs, datum.Range{Min: bs[j], Max: bs[j+1]})
+		}
+		if r.Bool() {
+			rs = append(rs, datum.Range{Min: bs[len(bs)-1], Max: math.Inf(1)})
+		}
+		switch r.Intn(3) {
+		case 0:
+			for x, y := 0, len(rs)-1; x < y; x, y = x+1, y-1 {
+				rs[x], rs[y] = rs[y], rs[x]
+			}
+		case 1:
+			for x := len(rs) - 1; x > 0; x-- {
+				y := r.Intn(x + 1)
+				rs[x], rs[y] = rs[y], rs[x]
+			}
+		}
+		maxes := []float64{}
+		for _, x := range rs {
+			maxes = append(maxes, x.Max)
+		}
+		runExpRanges(out, rs, genObs(r, maxes, 1+r.Intn(10)))
+	}
+	out.Flush("decl: boundary lists of length 0-6 (negative, zero, -0, denormal, adjacent floats, unsorted, NaN/Inf) through the real code generator, non-trivial when accepted; obs: sequences of 1-14 observations at/just below/just above every bound plus negatives, infinities and NaN on a real Buckets datum, non-trivial when >= 2 observations include a value equal to a bound or a non-finite value; exp: program text compiled, observed and scraped through a prometheus registry, non-trivial when >= 2 observations; expr: the same for a metric whose ranges are given to the store API ascending, descending or shuffled (+Inf anywhere or appended by MakeBuckets)", false)
 }
 
 func replay(path string) {
